@@ -31,7 +31,9 @@ def job(args):
         mod = importlib.import_module(f"hgxverif.props.{m.prop.lower()}")
         res = mod.run(ctx)
         res.dedupe()
-        rules = {o.rule for o in res.obs if o.status == "violation"}
+        from hgxverif.report import load_known, match_known
+        kn = load_known()
+        rules = {o.rule for o in res.obs if o.status == "violation" and match_known(m.prop, o, kn) is None}
         if m.kind == "break":
             return tname, mid, m.kind, "fired" if m.rule in rules else ("fired-other" if rules else "missed")
         return tname, mid, m.kind, "silent" if not rules else "false-alarm:" + ",".join(sorted(rules))
